@@ -149,6 +149,7 @@ def rule_reach(ck: Check, repo: Repo, cg: CallGraph) -> None:
     for name, fn in sorted(cmds.items()):
         q = repo.qualname_of(fn)
         parent = cg.reachable([MAIN, q])
+        ck.extra.setdefault("hygiene_scope", []).extend(sorted(parent))
         found = []
         for f in parent:
             for full, node in cg.ext[f]:
